@@ -855,6 +855,9 @@ class Exec:
                     self.assign(g.target, it.get(i, self), f2)
                     return self.eval(e.elt, f2)
                 return SymSeq(it.length, get, "list")
+            out = []
+            self._comp(e.generators, 0, fr, lambda f: out.append(self.eval(e.elt, f)), first_iter=it)
+            return out
         out = []
         self._comp(e.generators, 0, fr, lambda f: out.append(self.eval(e.elt, f)))
         return out
@@ -868,12 +871,12 @@ class Exec:
                    lambda f: out.__setitem__(self.hashable(self.eval(e.key, f)), self.eval(e.value, f)))
         return out
 
-    def _comp(self, gens, i, fr, emit):
+    def _comp(self, gens, i, fr, emit, first_iter=None):
         if i == len(gens):
             emit(fr)
             return
         g = gens[i]
-        it = self.as_iterable(self.eval(g.iter, fr))
+        it = first_iter if (first_iter is not None and i == 0) else self.as_iterable(self.eval(g.iter, fr))
         if not isinstance(it, list):
             raise Unsupported(f"comprehension over a symbolic-length sequence (line {g.iter.lineno})")
         for v in it:
